@@ -145,13 +145,21 @@ Hypothesis Hden : length den = n.
 
 Definition term (x : F) (i : nat) : F := nth i ys zero *f nth i den zero *f pprod (removek i xs) x.
 
+(* the value of the accumulator after k rounds, as a closed form *)
+Fixpoint lag_acc (k : nat) : list F :=
+  match k with
+  | 0 => repeat zero n
+  | S k' => zip_with (fun r m => r +f m *f (nth k' ys zero *f nth k' den zero)) (lag_acc k') (Ng xs k')
+  end.
+
 Lemma interp_outer x : forall k, k <= n ->
   exists res, for_up 0 k (interp_outer_body Ns ys den) (repeat zero n) = Ok res /\ length res = n /\
-              peval res x = gsum (term x) k.
+              peval res x = gsum (term x) k /\ res = lag_acc k.
 Proof.
   induction k as [|k IH]; intros Hk.
-  - exists (repeat zero n). split; [reflexivity|]. split. apply repeat_length. apply (peval_repeat_zero O L).
-  - destruct IH as (res & Hr & Hl & Hp); [lia|].
+  - exists (repeat zero n). split; [reflexivity|]. split. apply repeat_length.
+    split. apply (peval_repeat_zero O L). reflexivity.
+  - destruct IH as (res & Hr & Hl & Hp & Hlag); [lia|].
     rewrite for_up_snoc, Hr. cbn [bind]. simpl (0 + k).
     unfold interp_outer_body. rewrite (get_ok ys k zero) by lia. cbn [bind].
     rewrite (get_ok den k zero) by lia. cbn [bind].
@@ -160,8 +168,10 @@ Proof.
     simpl in G. rewrite G by (rewrite Ng_length; lia).
     eexists. split; [reflexivity|]. split.
     + rewrite zip_acc_length; auto. rewrite Ng_length; lia.
-    + rewrite zip_acc_peval by (rewrite Ng_length; lia). rewrite Hl. unfold n. rewrite (Ng_firstn xs k x) by (unfold n in *; lia).
-      rewrite Hp. cbn [gsum]. unfold term. ring.
+    + split.
+      * rewrite zip_acc_peval by (rewrite Ng_length; lia). rewrite Hl. unfold n. rewrite (Ng_firstn xs k x) by (unfold n in *; lia).
+        rewrite Hp. cbn [gsum]. unfold term. ring.
+      * cbn [lag_acc]. rewrite Hlag. reflexivity.
 Qed.
 End Fixed.
 
@@ -214,7 +224,23 @@ Proof.
   exists p. rewrite !interpolate_unfold by assumption. rewrite Hp. cbn [bind].
   repeat split; auto.
   intros x. destruct (interp_outer xs ys (dens xs) H (dens_length xs) x (length xs) (le_n _))
-    as (p2 & Hp2 & _ & Hv). rewrite Hp in Hp2. inversion Hp2; subst. exact Hv.
+    as (p2 & Hp2 & _ & Hv & _). rewrite Hp in Hp2. inversion Hp2; subst. exact Hv.
+Qed.
+
+(* closed form of the result (used to relate interpolate_batch to interpolate) *)
+Lemma interpolate_eq_lag dbg xs ys : length xs <= length ys -> (dbg = true -> length xs = length ys) ->
+  interpolate O dbg xs ys false = Ok (lag_acc xs ys (dens xs) (length xs)).
+Proof.
+  intros H Hd.
+  destruct (interp_outer xs ys (dens xs) H (dens_length xs) zero (length xs) (le_n _))
+    as (p & Hp & _ & _ & Hlag).
+  rewrite interpolate_unfold by assumption. rewrite Hp. cbn [bind]. now rewrite Hlag.
+Qed.
+
+Lemma lag_acc_length xs ys den : forall k, k <= length xs -> length (lag_acc xs ys den k) = length xs.
+Proof.
+  induction k as [|k IH]; intros Hk; cbn [lag_acc]. apply repeat_length.
+  rewrite zip_acc_length. apply IH; lia. rewrite IH by lia. rewrite Ng_length; lia.
 Qed.
 
 Lemma interpolate_ok dbg xs ys : length ys = length xs ->
